@@ -100,6 +100,7 @@ def run(tier: str) -> int:
             {"Family": "stacke", "MaxLen": 3, "Starts": "zero", "Sample": 400, "workers": 3},
             {"Family": "sqws", "MaxLen": 3, "Starts": "zero", "Sample": 0, "workers": 3, "style": "min"},
             {"Family": "sqcls", "MaxLen": 3, "Starts": "zero", "Sample": 400, "workers": 3, "style": "min"},
+            {"Family": "pushalt", "MaxLen": 4, "Starts": "zero", "Sample": 0, "workers": 3},
             {"Family": "optsk", "MaxLen": 3, "Starts": "all", "Sample": 200, "workers": 3, "style": "min"},
             {"Family": "optinl", "MaxLen": 3, "Starts": "zero", "Sample": 150, "workers": 3, "style": "min"},
             {"Family": "optsq", "MaxLen": 3, "Starts": "zero", "Sample": 150, "workers": 3, "style": "min"},
@@ -123,6 +124,7 @@ def run(tier: str) -> int:
             {"Family": "sqws", "MaxLen": 4, "Starts": "zero", "Sample": 0, "workers": 8, "style": "min"},
             {"Family": "sqesc", "MaxLen": 3, "Starts": "zero", "Sample": 0, "workers": 8, "style": "min"},
             {"Family": "sqcls", "MaxLen": 4, "Starts": "zero", "Sample": 0, "workers": 8, "style": "min"},
+            {"Family": "pushalt", "MaxLen": 5, "Starts": "zero", "Sample": 0, "workers": 8},
             {"Family": "optsk", "MaxLen": 4, "Starts": "all", "Sample": 0, "workers": 8, "style": "min"},
             {"Family": "optinl", "MaxLen": 4, "Starts": "zero", "Sample": 0, "workers": 8, "style": "min"},
             {"Family": "optsq", "MaxLen": 3, "Starts": "zero", "Sample": 0, "workers": 8, "style": "min"},
